@@ -291,8 +291,9 @@ set_option linter.unusedSimpArgs false   -- which simp lemmas fire depends on wh
 
 /-- closes a leaf of an agreement proof: identical terms, contradictory path conditions, or field-wise equal stores -/
 macro "agree_leaf" : tactic =>
-  `(tactic| (first | rfl | (exfalso; omega) | (simp [*] <;> omega) | (exfalso; simp_all; done)
-                   | (congr 1; simp <;> omega) | (congr 3 <;> simp <;> omega)))
+  `(tactic| (first | rfl | (exfalso; omega) | (simp [*] <;> omega) | (simp_all; done) | (exfalso; simp_all; done)
+                   | (congr 1; simp <;> omega) | (congr 2 <;> (first | omega | (simp <;> omega)))
+                   | (congr 3 <;> (first | omega | (simp <;> omega))) | grind))
 
 /-- `consume`: what the caller sees (store afterwards, returned bool or the observer's exception). -/
 theorem c04_translation_agrees_consume (s : Store) (cost : Nat) (cur : Cur) (d : Bool) (p : Nat) :
